@@ -1,7 +1,7 @@
 (* Props/C12.v -- property C12: page enumeration is the depth-first order of the page tree.
    Statements only; proofs live in Proofs/PageTreeProofs.v. *)
-From LV Require Import Base.Bytes Model.Obj Model.DocQ Model.PageTree Spec.Dfs Gen.Consts
-  Proofs.PageTreeProofs.
+From LV Require Import Base.Bytes Model.Obj Model.DocQ Model.PageTree Model.PageTreeHint Spec.Dfs Spec.DfsCounts Gen.Consts
+  Proofs.PageTreeProofs Proofs.PageTreeHintProofs.
 
 (* (1) On every document whose catalog points to a represented page tree with pairwise distinct
    nodes and height within the limit, enumeration is exactly the DFS leaf order. *)
@@ -33,6 +33,40 @@ Proof.
   eapply Forall_impl; [|exact H2]. intros id H. apply node_type_page_spec. exact H.
 Qed.
 
+(* (4) size_hint, observed on the fresh iterator and after every yielded page, on ANY document: the pages the
+   observation records are page_iter; the promised upper bound covers the pages still to come at every
+   observed state (so get_pages, which sizes its collection from the hint, and adapters relying on the
+   bound are safe), and the lower bound never exceeds the upper bound. *)
+Theorem C12_size_hint_sound :
+  forall d,
+    (fst (fst (page_hints d)) <= snd (fst (page_hints d)))%N /\
+    (N.of_nat (length (snd (page_hints d))) <= snd (fst (page_hints d)))%N /\
+    steps_ok (snd (page_hints d)) /\
+    map fst (snd (page_hints d)) = page_iter d.
+Proof. exact page_hints_ok. Qed.
+
+(* (5) ... and on a represented tree whose sections carry the right Count the fresh iterator announces
+   exactly the number of pages.  |objects| <= usize::MAX is guaranteed by the type of objects.len().
+   Partial: exactness after k yielded pages (count-down n-1 .. 0) is checked on the implementation for every
+   generated well-formed tree with exact counts, not proved. *)
+Theorem C12_size_hint_exact_partial :
+  forall d cat i g ks,
+    catalog d = Some cat ->
+    dict_get cat K_Pages = Some (ORef i g) ->
+    tree_wf d (PNode (i, g) ks) ->
+    Forall (counts_exact (d_objects d)) ks ->
+    (N.of_nat (length (d_objects d)) <= USIZE_MAX)%N ->
+    fst (fst (page_hints d)) = N.of_nat (length (leaves (PNode (i, g) ks))).
+Proof. exact hint_exact_initial. Qed.
+
+Theorem C12_example_size_hint :
+  exists cat, catalog ex_doc_counts = Some cat /\ dict_get cat K_Pages = Some (ORef 2 0) /\
+              tree_wf ex_doc_counts ex_tree /\
+              Forall (counts_exact (d_objects ex_doc_counts))
+                     [PLeaf (3,0)%N; PNode (4,0)%N [PLeaf (5,0)%N]; PLeaf (6,0)%N] /\
+              page_hints ex_doc_counts = ((3, 7), [((3,0), (2, 6)); ((5,0), (1, 4)); ((6,0), (0, 3))])%N.
+Proof. exact ex_counts. Qed.
+
 (* non-vacuity *)
 Theorem C12_example :
   exists cat, catalog ex_doc = Some cat /\ dict_get cat K_Pages = Some (ORef 2 0) /\
@@ -44,4 +78,7 @@ Proof. exact ex_hyps. Qed.
 Print Assumptions C12_dfs.
 Print Assumptions C12_numbered.
 Print Assumptions C12_total.
+Print Assumptions C12_size_hint_sound.
+Print Assumptions C12_size_hint_exact_partial.
+Print Assumptions C12_example_size_hint.
 Print Assumptions C12_example.
